@@ -284,6 +284,16 @@ def wl_bad_data(ctx, idx, rng):
                 s2 = list(shp)
                 s2[ax] = wrong
                 cases.append((f"fixed_axis{ax}={wrong}", arr(tuple(s2), dt), ValueError))
+    # a fixed axis whose length Dask does not know (boolean-mask selection): the right length cannot be vouched for
+    for ax, r in enumerate(req):
+        if r is not None:
+            for keep in (r, r + 1):
+                s2 = list(shp)
+                s2[ax] = r + 2
+                base_ = da.from_array(np.zeros(tuple(s2), dtype=dt), chunks=-1)
+                msk = da.from_array(np.arange(r + 2) < keep, chunks=-1)
+                sel = base_[(slice(None),) * ax + (msk,)]
+                cases.append((f"unknown_len_axis{ax}_really{keep}", sel, ValueError))
     # dtypes
     allowed = [np.dtype(d) for d in cls._req_dtype]
     for d in [np.int8, np.uint16, np.int64, np.float32, np.float64, np.complex64, np.complex128, np.bool_, np.float16,
